@@ -37,6 +37,10 @@ type BatchInfo struct {
 	NReq     int
 	Threshold uint32 // module threshold in force when the batch started (ledger)
 	HasThreshold bool
+	// timeout/frequency the consumer (or owning module) had instructed when the batch started (ledger)
+	LTimeout int64
+	LFreq    uint64
+	HasTF    bool
 	DoneH    int64 // height at which the batch state went completed (0 = not yet)
 	ExpiredH int64
 }
@@ -67,6 +71,11 @@ type CtxInfo struct {
 	// Threshold: response threshold in force according to the owning module's successful create/update calls
 	Threshold    uint32
 	HasThreshold bool
+	// LTimeout/LFreq: timeout and frequency in force according to the successful create/update instructions the
+	// harness itself saw (an update that names 0 leaves the value alone); HasTF false = not known (genesis, re-import)
+	LTimeout int64
+	LFreq    uint64
+	HasTF    bool
 }
 
 type BindInfo struct {
@@ -147,6 +156,7 @@ func (t *Tracker) rebase(s *Snap) {
 			ci.CreatedAt = -1
 			ci.CreatedRunning = false
 			ci.Removed = false
+			ci.HasTF = false
 			continue
 		}
 		t.Ctxs[id] = &CtxInfo{ID: id, Origin: "genesis", Repeated: c.Repeated, MaxTotal: c.RepeatedTotal, Consumer: c.Consumer, EverUnlimited: c.RepeatedTotal < 0}
@@ -309,7 +319,19 @@ func (t *Tracker) Apply(x *Exec, r *StepRec) {
 			ci.Origin = "module"
 			ci.Ref = ctxRefOf("mod-"+r.Mod.Label, 0)
 			ci.Threshold, ci.HasThreshold = r.Mod.Threshold, true
+			if r.Mod.T == "create" && r.Mod.Repeated && r.Mod.Timeout > 0 {
+				ci.LTimeout, ci.LFreq, ci.HasTF = r.Mod.Timeout, r.Mod.Freq, true
+				if ci.LFreq == 0 {
+					ci.LFreq = uint64(ci.LTimeout)
+				}
+			}
 		case r.Kind == "msg" && r.Msg.T == "call":
+			if r.Msg.Repeated && r.Msg.Timeout > 0 {
+				ci.LTimeout, ci.LFreq, ci.HasTF = r.Msg.Timeout, r.Msg.Freq, true
+				if ci.LFreq == 0 {
+					ci.LFreq = uint64(ci.LTimeout)
+				}
+			}
 			ci.Origin = "user"
 			if x.cfg.ModuleService && r.Msg.Svc == types.OraclePriceServiceName {
 				ci.Origin = "modsvc"
@@ -331,6 +353,30 @@ func (t *Tracker) Apply(x *Exec, r *StepRec) {
 	if r.Kind == "mod" && r.Mod.T == "update" && r.Mod.Threshold > 0 {
 		if ci := t.Ctxs[hx(x.resolveCtx(r.Mod.Ctx))]; ci != nil && ci.Origin == "module" {
 			ci.Threshold, ci.HasThreshold = r.Mod.Threshold, true
+		}
+	}
+	// instructed timeout / frequency (ledger): a successful update that names a value changes it, 0 leaves it alone
+	{
+		var ci *CtxInfo
+		var nt int64
+		var nf uint64
+		switch {
+		case r.Kind == "msg" && r.Msg.T == "updctx":
+			ci, nt, nf = t.Ctxs[hx(x.resolveCtx(r.Msg.Ctx))], r.Msg.Timeout, r.Msg.Freq
+		case r.Kind == "mod" && r.Mod.T == "update":
+			ci, nt, nf = t.Ctxs[hx(x.resolveCtx(r.Mod.Ctx))], r.Mod.Timeout, r.Mod.Freq
+		}
+		if ci != nil && ci.HasTF {
+			ot, of := ci.LTimeout, ci.LFreq
+			if nt > 0 {
+				ci.LTimeout = nt
+			}
+			if nf > 0 {
+				ci.LFreq = nf
+			}
+			if ot != ci.LTimeout || of != ci.LFreq {
+				ci.Events = append(ci.Events, CtxEvent{h, "update_tf"})
+			}
 		}
 	}
 	// context changes
@@ -371,7 +417,7 @@ func (t *Tracker) Apply(x *Exec, r *StepRec) {
 				ci.Killed = true
 			}
 		}
-		if pc.Timeout != qc.Timeout || pc.RepeatedFrequency != qc.RepeatedFrequency {
+		if !ci.HasTF && (pc.Timeout != qc.Timeout || pc.RepeatedFrequency != qc.RepeatedFrequency) {
 			ci.Events = append(ci.Events, CtxEvent{h, "update_tf"})
 		}
 		if qc.BatchCounter != pc.BatchCounter {
@@ -383,7 +429,7 @@ func (t *Tracker) Apply(x *Exec, r *StepRec) {
 				}
 			}
 			ci.Batches = append(ci.Batches, BatchInfo{N: qc.BatchCounter, StartH: h, Issued: nreq > 0, Timeout: qc.Timeout, Freq: qc.RepeatedFrequency, NReq: nreq,
-				Threshold: ci.Threshold, HasThreshold: ci.HasThreshold})
+				Threshold: ci.Threshold, HasThreshold: ci.HasThreshold, LTimeout: ci.LTimeout, LFreq: ci.LFreq, HasTF: ci.HasTF})
 		}
 		if n := len(ci.Batches); n > 0 {
 			b := &ci.Batches[n-1]
